@@ -179,7 +179,7 @@ def check(ctx):
     cl = [f for k, f in P.fns.items() if k.startswith("tauri_typegen::analysis::command_parser::CommandParser::extract_commands_from_ast::{closure")]
     outer = P.fns.get("tauri_typegen::analysis::command_parser::CommandParser::extract_commands_from_ast")
     eci = P.fns.get("tauri_typegen::analysis::command_parser::CommandParser::extract_command_info")
-    if not cl or outer is None or eci is None:
+    if outer is None or eci is None:
         r2.bad(V(r2.id, "<anchor>", "missing:extract_commands_from_ast", "anchors not found"))
     else:
         calls = [(f, c) for f in cl + [outer] for c in f.calls if eci.id in P.targets(c)]
@@ -189,7 +189,13 @@ def check(ctx):
             conds = f.must_conditions(c.bb)
             want_c = {"call CommandParser::is_tauri_command()=true"}
             fn_c = [x for x in conds if re.match(r"arg:\w+\.deref=Fn$", x)]
-            rest = set(conds) - want_c - set(fn_c)
+            loop_c = []
+            if f is outer:
+                # the same discovery written as a `for` loop over the items: being in the loop (`next() = Some`) is no filter, and the item is the
+                # loop's element instead of a closure parameter
+                loop_c = [x for x in conds if re.search(r"::next\(\)=Some$", x)]
+                fn_c = fn_c or [x for x in conds if re.search(r"=Fn$", x) and "next(" in x]
+            rest = set(conds) - want_c - set(fn_c) - set(loop_c)
             if len(fn_c) == 1 and want_c <= set(conds) and not rest:
                 r2.ok("extract_command_info under exactly {Item::Fn, is_tauri_command}")
             else:
@@ -202,6 +208,8 @@ def check(ctx):
                 t = f.describe_origin(o, deep=1)
                 if re.match(r"arg:\w+\.deref$", t) or (o[0] == "call" and short_path(o[1].best) == "CommandParser::is_tauri_command"):
                     continue
+                if f is outer and ((o[0] == "call" and o[1].name == "next") or "next(" in f.describe_origin(o, deep=3)):
+                    continue        # the loop's own iteration / the variant test on the loop's element
                 # bool temporaries of && / matches! lowering
                 if o[0] == "multi" and f.locals[f.blocks[b]["term"]["discr"].get("move", f.blocks[b]["term"]["discr"].get("copy", {"l": 0}))["l"]] == "bool":
                     continue
@@ -233,8 +241,8 @@ def check(ctx):
         else:
             r2.bad(V(r2.id, outer.id, "iteration-source", "discovery does not iterate the file's top-level items"))
         fm = [c for c in outer.calls if c.name in ("filter_map", "filter", "take", "skip", "take_while", "skip_while", "step_by")]
-        if [c.name for c in fm] == ["filter_map"]:
-            r2.ok("single filter_map adaptor")
+        if [c.name for c in fm] == ["filter_map"] or (not fm and not cl and any(c_.name == "next" for c_ in outer.calls)):
+            r2.ok("single filter_map adaptor" if fm else "a plain loop over the items, no adaptor")
         else:
             r2.bad(V(r2.id, outer.id, "adaptors:%s" % ",".join(c.name for c in fm), "unexpected iterator adaptors on the item list: %s" % [c.name for c in fm]))
     r2.require_floor(4, "discovery facts")
@@ -543,6 +551,16 @@ def check(ctx):
                 while init2.get("k") in ("ref", "paren"):
                     init2 = init2["expr"]
                 t = "%s.%s(%s)" % (_et(init2), ex["method"], ", ".join(_et(a) for a in ex["args"]))
+        # `let signature = &func.sig; .. signature.ident.to_string()`: the root of the receiver chain through its let binding (twice at most)
+        for _ in range(2):
+            m_ = re.match(r"^(\w+)((?:\.\w+)*\.to_string\(\))$", t)
+            if m_ and not re.match(r"^\w+\.sig\.ident\.to_string\(\)$", t) and sites:
+                init3 = find_let(fn.body, m_.group(1))
+                if init3 is None:
+                    break
+                while init3.get("k") in ("ref", "paren"):
+                    init3 = init3["expr"]
+                t = _et(init3) + m_.group(2)
         if re.match(r"^\w+\.sig\.ident\.to_string\(\)$", t):
             r5.ok("%s: CommandInfo.name = %s" % (fn.qname, t))
         else:
